@@ -166,12 +166,23 @@ func CheckKeyValue(path string, rwPath *admin.ReadWritePath, val *configapi.Type
 	if len(indexNames) == 0 {
 		return nil
 	}
-	for i, idxName := range indexNames {
+	for i := range indexNames {
 		if err := CheckPathIndexIsValid(indexValues[i]); err != nil {
 			return err
 		}
-		if !rwPath.IsAKey || rwPath.AttrName == idxName && indexValues[i] == val.ValueToString() {
-			return nil
+	}
+	if !rwPath.IsAKey {
+		return nil
+	}
+	// A key leaf: its value is the value of the same-named key of its own list entry, which is the
+	// element directly above it - not of an outer list that happens to have a key of that name
+	elems := utils.SplitPath(path)
+	if len(elems) >= 2 {
+		ownNames, ownValues := ExtractIndexNames(elems[len(elems)-2])
+		for i, idxName := range ownNames {
+			if rwPath.AttrName == idxName && ownValues[i] == val.ValueToString() {
+				return nil
+			}
 		}
 	}
 	return errors.NewInvalid("index attribute %s=%s does not match %s", rwPath.AttrName, val.ValueToString(), path)
